@@ -125,14 +125,77 @@ def run(ctx, prog):
         guarded(ctx, '%s/no-reachable-panic' % name, 'M', one)
 
 
+def integrity_contract(ctx, prog):
+    """IntegrityMetadata (sd_jwt_vc): the accessors unwrap what the only constructor validated.  The constructor obligation and the
+    accessor shapes are decided together; the unwraps in the accessors are justified only while both hold."""
+    A = Auditor(ctx, prog)
+    RB = {'scenario': 'malformed_inputs', 'cex': {'only': '[integrity]'}}
+    IMPL = r'sd_jwt_vc::metadata::integrity::<impl at [^>]*>::|integrity::<impl at [^>]*>::'
+    DASH = ('const', 45)
+
+    def is_value(t, leaf):
+        t = strip(t)
+        while isinstance(t, tuple) and t and t[0] == 'app' and re.search(r'Deref>::deref$|as_str$|AsRef<str>>::as_ref$', t[1]):
+            t = strip(t[2][0])
+        fp = field_path(t)
+        return bool(fp) and fp[0] == leaf
+
+    f = prog.one(r'integrity::<impl at [^>]*>::try_from$', sig=r'^(\w+::)*String')
+    paths, ex = A.paths(f, inline=r'integrity::<impl at [^>]*>::try_from::\{closure')
+
+    def r_ctor(p):
+        if p.kind != 'return':
+            return 'panic ' + p.msg
+        if not p.is_ok():
+            return None
+        sp = [c for c in p.find_calls(r'<impl str>::splitn$') if is_value(c.args[0], 'value') and strip(c.args[1]) == ('const', 3) and strip(c.args[2]) == DASH]
+        if len(sp) != 1:
+            return 'accepted without splitting the value into at most three parts at "-"'
+        nx = [c for c in p.find_calls(r'SplitN<.*Iterator>::next$') if p.took(c, 'Some')]
+        if len(nx) < 2:
+            return 'accepted without an algorithm part and a digest part'
+        dec = [c for c in p.find_calls(r'BaseEncoding::decode$') if p.took(c, 'Ok') and is_sub(c.args[0], ('field', nx[1].ret, 0, 'Some')) and 'Base64' in term_str(c.args[1]) and 'Base64Url' not in term_str(c.args[1])]
+        if not dec:
+            return 'accepted without the second part decoding as Base64'
+        out = p.payload()
+        if not (isinstance(out, VAgg) and len(out.fields) == 1 and is_value(p.term(out.fields[0]), 'value')):
+            return 'stored text is not the validated text'
+        return None
+    ok1 = A.require('IntegrityMetadata::try_from<String>/validates-alg-and-base64-digest-parts', paths, r_ctor, replay=RB)
+
+    shapes = {
+        'alg': lambda p: bool([c for c in p.find_calls(r'<impl str>::split_once$') if is_value(c.args[0], 'self') and strip(c.args[1]) == DASH]),
+        'digest': lambda p: bool([c for c in p.find_calls(r'<impl str>::split$') if is_value(c.args[0], 'self') and strip(c.args[1]) == DASH]) and
+        bool([c for c in p.find_calls(r'Split<.*Iterator>::nth$') if strip(c.args[1]) == ('const', 1)]),
+        'digest_bytes': lambda p: bool([c for c in p.find_calls(r'BaseEncoding::decode$') if apps(c.args[0], r'IntegrityMetadata::digest$') and 'Base64' in term_str(c.args[1]) and 'Base64Url' not in term_str(c.args[1])]),
+    }
+    for nm, shape in shapes.items():
+        f = prog.one(r'integrity::<impl at [^>]*>::%s$' % nm)
+        paths, ex = A.paths(f)
+        A.require('IntegrityMetadata::%s/reads-the-part-the-constructor-validated' % nm, paths,
+                  lambda p, shape=shape, nm=nm: None if shape(p) else '%s() does not read the part the constructor validated' % nm, replay=RB)
+    for g in ('from_str', 'parse'):
+        f = prog.one(r'integrity::<impl at [^>]*>::%s$' % g)
+        paths, ex = A.paths(f, inline=r'integrity::<impl at [^>]*>::(from_str|parse)$')
+        A.require('IntegrityMetadata::%s/goes-through-try_from' % g, [p for p in paths if p.kind == 'return'],
+                  lambda p: None if apps(p.term(), r'IntegrityMetadata as .*TryFrom<.*String>>::try_from$|IntegrityMetadata::try_from$|FromStr>::from_str$|str>::parse') else 'constructor bypasses try_from', replay=RB)
+    ctx.assumptions.append('contract: the unwraps in IntegrityMetadata::{alg, digest, digest_bytes} are unreachable for values built by its only constructor '
+                           '(decided together: constructor validates "alg-<base64>[-options]", accessors read those parts)')
+
+
+def is_sub(t, want):
+    return any(s == want for s in subterms(t))
+
+
 def main(ctx):
     prog, info = load(CRATES)
     ctx.extra['mir'] = info
     ctx.bounds.append('%d entry points; every acyclic path with callee results unconstrained; loops unrolled as noted per obligation' % len(ENTRY))
     ctx.outside += ['panics inside callees that are not inlined: serde_json, the third-party did_url_parser beyond its method-id cursor kernel, url, time, flate2, roaring, prefix_hex, sd-jwt-payload',
-                    'entry points whose body is a serde derive or an async state machine not listed above', 'SD-JWT VC (feature not in the dumped configuration)', 'StatusList2021 get/set/entry/set_entry: decided under C12 on a precise list model (any length <= 2^60 bytes)']
+                    'entry points whose body is a serde derive or an async state machine not listed above', 'SD-JWT VC beyond IntegrityMetadata (metadata fetching, JSON schema)', 'StatusList2021 get/set/entry/set_entry: decided under C12 on a precise list model (any length <= 2^60 bytes)']
     run(ctx, prog)
     # the one third-party callee that is reachable with attacker-chosen text and whose MIR is small enough: the DID-URL parser's
     # method-id phase (cursor inside the input <=> the accessors of an accepted DID cannot slice out of range); shared with C10
+    guarded(ctx, 'IntegrityMetadata accessor contract', 'M', lambda: integrity_contract(ctx, prog))
     import c10
     guarded(ctx, 'third-party parser cursor', 'M', lambda: c10.parser_cursor(ctx))
